@@ -611,34 +611,39 @@ func ruleMergeIter(r *Run) {
 			o.Fail("-", "method not found")
 			continue
 		}
+		// the loop over the sources: in the method, or in a helper it delegates to (possibly handing
+		// the method to apply as a function value: i.collect(logiter.Close))
 		var loop *rangeLoop
-		for _, l := range rangeIndexLoops(fn) {
-			if f, base, ok := loadOfField(l.X); ok && f == "iters" && base == ssa.Value(fn.Params[0]) {
-				loop = l
-			}
-		}
-		if loop == nil {
-			o.Fail(r.pos(fn.Pos()), "no range loop over the whole i.iters")
-			continue
-		}
-		if len(loop.earlyExits()) > 0 {
-			o.Fail(r.pos(fn.Pos()), "the loop can be left before every source is visited")
-			continue
-		}
 		var call *ssa.Call
-		for b := range loop.Blocks {
-			for _, in := range b.Instrs {
-				if c, ok := in.(*ssa.Call); ok && invokeIs(c, m) {
-					call = c
+		lfn := fn
+		for _, site := range findFieldMethodSites(fn, m) {
+			cl, ok := site.Call.(*ssa.Call)
+			if !ok {
+				continue
+			}
+			for _, l := range rangeIndexLoops(site.Fn) {
+				if f, base, ok := loadOfField(l.X); ok && f == "iters" && base == site.Recv && l.Blocks[cl.Block()] {
+					if lu, ok := unspill(site.On).(*ssa.UnOp); ok && isIndexOf(lu.X, l) {
+						loop, call, lfn = l, cl, site.Fn
+					} else if lu, ok := site.On.(*ssa.UnOp); ok && isIndexOf(lu.X, l) {
+						loop, call, lfn = l, cl, site.Fn
+					}
+				}
+			}
+			if site.Via != nil && loop != nil && lfn == site.Fn {
+				for _, ret := range returnsOf(fn) {
+					if !site.Via.Block().Dominates(ret.Block()) {
+						loop = nil
+					}
 				}
 			}
 		}
-		if call == nil {
-			o.Fail(r.pos(fn.Pos()), "%s is not called on the sources", m)
+		if loop == nil || call == nil {
+			o.Fail(r.pos(fn.Pos()), "no range loop over the whole i.iters that applies %s to the ranged source", m)
 			continue
 		}
-		if lu, ok := call.Call.Value.(*ssa.UnOp); !ok || !isIndexOf(lu.X, loop) {
-			o.Fail(r.pos(call.Pos()), "%s is not called on the ranged source", m)
+		if len(loop.earlyExits()) > 0 {
+			o.Fail(r.pos(lfn.Pos()), "the loop can be left before every source is visited")
 			continue
 		}
 		if !mustPassThrough(loop.Body, loop.Header, call.Block()) {
